@@ -256,9 +256,10 @@ Qed.
 (* ---------------- metadata / content of the inode an entry names ---------------- *)
 Lemma step_set_meta (T : N -> bytes -> Prop) b f pre dd n i nd m' :
   wf f -> b <= f_next f -> rwalk f D pre = Some dd -> blookup n (ents f dd) = Some i -> get f i = Some nd ->
+  (b <= i \/ is_dir f i = true) ->
   step T b f (put f i (set_meta nd m')).
 Proof.
-  intros W Hb Hw Hbl Hg. destruct (dentry_reach f pre dd n i Hw Hbl) as [Rdd Ri].
+  intros W Hb Hw Hbl Hg Hbi. destruct (dentry_reach f pre dd n i Hw Hbl) as [Rdd Ri].
   apply (step_put_keep D T b f i nd); auto.
   - apply (dentry_notD f dd n i W Rdd Hbl).
 Qed.
@@ -372,6 +373,19 @@ Proof.
     assert (En : is_nil (pre ++ [n]) = false) by (destruct pre; reflexivity). rewrite En. apply IH; auto.
 Qed.
 
+Lemma sys_remove_all_unfold c f p : p <> [] ->
+  sys_remove_all c f p =
+  if ends_with_dot p then (f, RErr EINVAL)
+  else match resolve c f p false with
+       | inr ENOENT => (f, ROk)
+       | inr e => (f, RErr e)
+       | inl r => match l_ino r with
+                  | None => (f, ROk)
+                  | Some _ => if is_nil (l_name r) then (f, RErr EBUSY) else (del_ent f (l_dir r) (l_name r), ROk)
+                  end
+       end.
+Proof. intros H. destruct p; [congruence|reflexivity]. Qed.
+
 Section Call.
 Variables (T : N -> bytes -> Prop) (b : N) (c : ctx) (f : fs) (p : bytes) (pre : list bytes) (n : bytes).
 Hypothesis W : wf f.
@@ -381,15 +395,20 @@ Hypothesis Hrel : relpath p (pre ++ [n]).
 Hypothesis Hsafe : safe f D pre.
 Hypothesis HT : forall dd, rwalk f D pre = Some dd -> T dd n.
 
+Ltac clear_others := try clear HT; try clear Hb; try clear W.
+Ltac clear_safe := try clear Hsafe.
+
 Lemma call_okname : okname n.
-Proof. destruct Hrel as (_ & _ & _ & _ & _ & H). apply (okname_last pre n H). Qed.
+Proof using Hrel.
+  clear_others. destruct Hrel as (_ & _ & _ & _ & _ & H). apply (okname_last pre n H). Qed.
 
 (* how the final component resolves without following *)
 Lemma resolve_nofollow :
   (exists e, resolve c f p false = inr e) \/
   (exists dd, rwalk f D pre = Some dd /\ is_dir f dd = true /\
      resolve c f p false = inl {| l_dir := dd; l_name := n; l_ino := blookup n (ents f dd) |}).
-Proof.
+Proof using Hc Hrel Hsafe.
+  clear_others.
   destruct (resolve_cases c f p (pre ++ [n]) false Hc Hrel) as [H|(pre' & n' & dd & E & Hw & Hd & Hr)].
   - right. split; auto. rewrite removelast_snoc. exact Hsafe.
   - left. exact H.
@@ -400,7 +419,8 @@ Lemma resolve_follow : safe f D (pre ++ [n]) ->
   (exists e, resolve c f p true = inr e) \/
   (exists dd, rwalk f D pre = Some dd /\ is_dir f dd = true /\
      resolve c f p true = inl {| l_dir := dd; l_name := n; l_ino := blookup n (ents f dd) |}).
-Proof.
+Proof using Hc Hrel.
+  clear_others. clear_safe.
   intros Hfull.
   destruct (resolve_cases c f p (pre ++ [n]) true Hc Hrel (or_introl Hfull)) as [H|(pre' & n' & dd & E & Hw & Hd & Hr)].
   - left. exact H.
@@ -408,12 +428,14 @@ Proof.
 Qed.
 
 Lemma nil_name : is_nil n = false.
-Proof. destruct call_okname as [(H & _) _]. destruct n; [congruence|reflexivity]. Qed.
+Proof using Hrel.
+  clear_others. destruct call_okname as [(H & _) _]. destruct n; [congruence|reflexivity]. Qed.
 
 (* ---- lstat ---- *)
 Lemma lstat_stat i nd : snd (sys_lstat c f p) = RStat i nd ->
   exists dd, rwalk f D pre = Some dd /\ is_dir f dd = true /\ blookup n (ents f dd) = Some i /\ get f i = Some nd.
-Proof.
+Proof using Hc Hrel Hsafe.
+  clear_others.
   intros H. destruct (sys_lstat_stat c f p (pre ++ [n]) i nd Hc Hrel) as (pre' & n' & dd & E & Hw & Hd & Hbl & Hg); auto.
   - rewrite removelast_snoc. exact Hsafe.
   - apply app_inj_tail in E. destruct E as [-> ->]. exists dd. auto.
@@ -421,7 +443,8 @@ Qed.
 
 (* lstat said ENOENT: whatever the name leads to is no symlink *)
 Lemma lstat_enoent_safe : snd (sys_lstat c f p) = RErr ENOENT -> safe f D (pre ++ [n]).
-Proof.
+Proof using Hc Hrel Hsafe.
+  clear_others.
   intros H. apply safe_app. split; auto. intros j Hj. apply safe_unfold.
   destruct (blookup n (ents f j)) as [i|] eqn:Eb; auto. split; [|exact I].
   destruct (is_link f i) eqn:El; auto. exfalso.
@@ -515,5 +538,181 @@ Proof.
       cbn [fst snd] in *. split; auto. intros i' H. inversion H; subst. right. auto.
 Qed.
 
+
+(* ---- metadata calls ---- *)
+(* the inode the name leads to was made by the running operation, or is a directory *)
+Definition target_ok : Prop :=
+  forall dd i, rwalk f D pre = Some dd -> blookup n (ents f dd) = Some i -> b <= i \/ is_dir f i = true.
+
+Lemma resolve_ino_nofollow_cases :
+  (exists e, resolve_ino c f p false = inr e) \/
+  (exists dd i, rwalk f D pre = Some dd /\ is_dir f dd = true /\ blookup n (ents f dd) = Some i
+                /\ resolve_ino c f p false = inl i).
+Proof using Hc Hrel Hsafe.
+  clear_others.
+  unfold resolve_ino. destruct resolve_nofollow as [[e He]|(dd & Hw & Hd & Hr)].
+  - rewrite He. left. eauto.
+  - rewrite Hr. cbn [l_ino]. destruct (blookup n (ents f dd)) as [i|] eqn:Eb; [right|left]; eauto.
+    exists dd, i. auto.
+Qed.
+
+Lemma resolve_ino_follow_cases : safe f D (pre ++ [n]) ->
+  (exists e, resolve_ino c f p true = inr e) \/
+  (exists dd i, rwalk f D pre = Some dd /\ is_dir f dd = true /\ blookup n (ents f dd) = Some i
+                /\ resolve_ino c f p true = inl i).
+Proof using Hc Hrel.
+  clear_others. clear_safe.
+  intros Hfull. unfold resolve_ino. destruct (resolve_follow Hfull) as [[e He]|(dd & Hw & Hd & Hr)].
+  - rewrite He. left. eauto.
+  - rewrite Hr. cbn [l_ino]. destruct (blookup n (ents f dd)) as [i|] eqn:Eb; [right|left]; eauto.
+    exists dd, i. auto.
+Qed.
+
+Lemma sys_lchown_step u g : target_ok -> step T b f (fst (sys_lchown c f p u g)).
+Proof.
+  intros Ht. unfold sys_lchown.
+  destruct resolve_ino_nofollow_cases as [[e He]|(dd & i & Hw & Hd & Hbl & Hr)]; rewrite ?He, ?Hr; [apply step_refl; auto|].
+  destruct (get f i) as [nd|] eqn:Eg; [|apply step_refl; auto].
+  cbn [fst]. apply (step_set_meta T b f pre dd n i nd); auto. apply (Ht dd i); auto.
+Qed.
+
+Lemma sys_utimens_step t : target_ok -> step T b f (fst (sys_utimens c f p t)).
+Proof.
+  intros Ht. unfold sys_utimens.
+  destruct resolve_ino_nofollow_cases as [[e He]|(dd & i & Hw & Hd & Hbl & Hr)]; rewrite ?He, ?Hr; [apply step_refl; auto|].
+  destruct (get f i) as [nd|] eqn:Eg; [|apply step_refl; auto].
+  cbn [fst]. apply (step_set_meta T b f pre dd n i nd); auto. apply (Ht dd i); auto.
+Qed.
+
+Lemma sys_lsetxattr_step key value : target_ok -> step T b f (fst (sys_lsetxattr c f p key value)).
+Proof.
+  intros Ht. unfold sys_lsetxattr.
+  destruct resolve_ino_nofollow_cases as [[e He]|(dd & i & Hw & Hd & Hbl & Hr)]; rewrite ?He, ?Hr; [apply step_refl; auto|].
+  destruct (get f i) as [nd|] eqn:Eg; [|apply step_refl; auto].
+  destruct (negb (has_prefix pfx_user key) && negb (has_prefix pfx_trusted key)); [apply step_refl; auto|].
+  match goal with |- context [if ?c then _ else _] => destruct c end; [apply step_refl; auto|].
+  cbn [fst]. apply (step_set_meta T b f pre dd n i nd); auto. apply (Ht dd i); auto.
+Qed.
+
+(* chmod follows the final component *)
+Lemma sys_chmod_step mode : safe f D (pre ++ [n]) -> target_ok -> step T b f (fst (sys_chmod c f p mode)).
+Proof.
+  intros Hfull Ht. unfold sys_chmod.
+  destruct (resolve_ino_follow_cases Hfull) as [[e He]|(dd & i & Hw & Hd & Hbl & Hr)]; rewrite ?He, ?Hr; [apply step_refl; auto|].
+  destruct (get f i) as [nd|] eqn:Eg; [|apply step_refl; auto].
+  cbn [fst]. apply (step_set_meta T b f pre dd n i nd); auto. apply (Ht dd i); auto.
+Qed.
+
+(* ---- removing calls ---- *)
+Lemma sys_remove_all_step : step T b f (fst (sys_remove_all c f p)).
+Proof.
+  rewrite sys_remove_all_unfold by (destruct Hrel; auto).
+  destruct (ends_with_dot p); [apply step_refl; auto|].
+  destruct resolve_nofollow as [[e He]|(dd & Hw & Hd & Hr)].
+  - rewrite He. destruct e; apply step_refl; auto.
+  - rewrite Hr. cbn [l_ino l_dir l_name]. destruct (blookup n (ents f dd)); [|apply step_refl; auto].
+    rewrite nil_name. cbn [fst]. apply (step_del_ent T b f pre n dd); auto.
+Qed.
+
+Lemma sys_unlink_step : step T b f (fst (sys_unlink c f p)).
+Proof.
+  unfold sys_unlink. destruct resolve_nofollow as [[e He]|(dd & Hw & Hd & Hr)].
+  - rewrite He. apply step_refl; auto.
+  - rewrite Hr. cbn [l_ino l_dir l_name]. destruct (blookup n (ents f dd)) as [i|]; [|apply step_refl; auto].
+    destruct (is_dir f i); [apply step_refl; auto|].
+    cbn [fst]. apply (step_del_ent T b f pre n dd); auto.
+Qed.
+
+(* ---- open without O_CREAT: nothing changes; the descriptor is the file the name leads to ---- *)
+Lemma sys_open_nocreat_fs mode : fst (sys_open_wronly c f p false mode) = f.
+Proof.
+  unfold sys_open_wronly. destruct (resolve c f p true) as [r|e]; [|reflexivity].
+  destruct (l_ino r) as [i|]; [|reflexivity].
+  destruct (get f i) as [[k m]|]; [destruct k|]; reflexivity.
+Qed.
+
+Lemma sys_open_nocreat_fd mode i : safe f D (pre ++ [n]) -> snd (sys_open_wronly c f p false mode) = RFd i ->
+  exists dd, rwalk f D pre = Some dd /\ blookup n (ents f dd) = Some i.
+Proof using Hc Hrel.
+  clear_others. clear_safe.
+  intros Hfull. unfold sys_open_wronly. destruct (resolve_follow Hfull) as [[e He]|(dd & Hw & Hd & Hr)].
+  - rewrite He. discriminate.
+  - rewrite Hr. cbn [l_ino]. destruct (blookup n (ents f dd)) as [j|] eqn:Eb; [|discriminate].
+    destruct (get f j) as [[k m]|]; [destruct k|]; simpl; try discriminate.
+    intros H. inversion H; subst. exists dd. auto.
+Qed.
+
 End Call.
+
+(* pwrite through a descriptor of a file the running operation made *)
+Lemma fd_pwrite_step (T : N -> bytes -> Prop) b f i off data :
+  wf f -> b <= f_next f -> reach f i -> i <> D -> b <= i -> step T b f (fst (fd_pwrite f i off data)).
+Proof.
+  intros W Hb Hr HD Hbi. unfold fd_pwrite.
+  destruct (get f i) as [[k m]|] eqn:Eg; [|apply step_refl; auto].
+  destruct k; try (apply step_refl; auto).
+  destruct data as [|d0 dr]; [apply step_refl; auto|].
+  cbn [fst]. apply (step_put_keep D T b f i {| i_kind := KFile data0; i_meta := m |}); auto.
+  intros p es H. discriminate.
+Qed.
+
+(* ---- link: the new name gets the inode the old path leads to (never through a final symlink) ---- *)
+Lemma sys_link_step (T : N -> bytes -> Prop) b c f oldp newp pre1 n1 pre n :
+  wf f -> b <= f_next f -> c_cwd c = D ->
+  relpath oldp (pre1 ++ [n1]) -> relpath newp (pre ++ [n]) -> safe f D pre1 -> safe f D pre ->
+  (forall dd, rwalk f D pre = Some dd -> T dd n) ->
+  let f' := fst (sys_link c f oldp newp) in
+  step T b f f' /\
+  (snd (sys_link c f oldp newp) = ROk ->
+   exists dd dd1 i, rwalk f D pre = Some dd /\ rwalk f D pre1 = Some dd1 /\ blookup n1 (ents f dd1) = Some i
+                    /\ blookup n (ents f dd) = None /\ blookup n (ents f' dd) = Some i).
+Proof.
+  intros W Hb Hc Ho Hn S1 S2 HT. unfold sys_link.
+  destruct (resolve_ino_nofollow_cases c f oldp pre1 n1 Hc Ho S1) as [[e He]|(dd1 & i & Hw1 & Hd1 & Hbl1 & Hr1)];
+    rewrite ?He, ?Hr1; [simpl; split; [apply step_refl; auto|discriminate]|].
+  destruct (resolve_nofollow c f newp pre n Hc Hn S2) as [[e He]|(dd & Hw & Hd & Hr)];
+    rewrite ?He, ?Hr; [simpl; split; [apply step_refl; auto|discriminate]|].
+  cbn [l_ino l_dir l_name]. destruct (blookup n (ents f dd)) eqn:Eb; [simpl; split; [apply step_refl; auto|discriminate]|].
+  destruct (is_dir f i) eqn:Hdi; [simpl; split; [apply step_refl; auto|discriminate]|].
+  destruct (dentry_reach f pre1 dd1 n1 i Hw1 Hbl1) as [Rd1 Ri].
+  destruct (step_add_link T b f pre n dd i W Hb Hw Hd (call_okname newp pre n Hn) Eb (HT dd Hw) Ri Hdi
+              (dentry_notD f dd1 n1 i W Rd1 Hbl1)) as [S B].
+  cbn [fst snd]. split; auto. intros _. exists dd, dd1, i. auto.
+Qed.
+
+(* ---- rename inside one directory ---- *)
+Lemma sys_rename_step b c f oldp newp pre n1 n2 :
+  wf f -> b <= f_next f -> c_cwd c = D ->
+  relpath oldp (pre ++ [n1]) -> relpath newp (pre ++ [n2]) -> safe f D pre -> n1 <> n2 ->
+  let f' := fst (sys_rename c f oldp newp) in
+  forall dd, rwalk f D pre = Some dd ->
+  step (T2 dd n1 n2) b f f' /\
+  (snd (sys_rename c f oldp newp) = ROk ->
+   exists i, blookup n1 (ents f dd) = Some i /\ blookup n2 (ents f' dd) = Some i).
+Proof.
+  intros W Hb Hc Ho Hn S Hne f' dd Hw. unfold f', sys_rename.
+  destruct (resolve_nofollow c f oldp pre n1 Hc Ho S) as [[e He]|(dd1 & Hw1 & Hd1 & Hr1)];
+    rewrite ?He, ?Hr1; [simpl; split; [apply step_refl; auto|discriminate]|].
+  destruct (resolve_nofollow c f newp pre n2 Hc Hn S) as [[e He]|(dd2 & Hw2 & Hd2 & Hr2)];
+    rewrite ?He, ?Hr2; [simpl; split; [apply step_refl; auto|discriminate]|].
+  rewrite Hw in Hw1, Hw2. inversion Hw1; inversion Hw2; subst dd1 dd2.
+  cbn [l_ino l_dir l_name].
+  rewrite (nil_name oldp pre n1 Ho), (nil_name newp pre n2 Hn). cbn [orb].
+  destruct (blookup n1 (ents f dd)) as [i|] eqn:Eb1; [|simpl; split; [apply step_refl; auto|discriminate]].
+  destruct (is_dir f i && is_ancestor rfuel f i dd); [simpl; split; [apply step_refl; auto|discriminate]|].
+  pose proof (step_move b f pre dd n1 n2 i W Hb Hw Hd1 (call_okname newp pre n2 Hn) Hne Eb1) as M.
+  cbv zeta in M. destruct M as [M1 M2].
+  destruct (blookup n2 (ents f dd)) as [j|] eqn:Eb2.
+  - destruct (is_dir f j && is_ancestor rfuel f j dd); [simpl; split; [apply step_refl; auto|discriminate]|].
+    destruct (N.eqb i j) eqn:Eij.
+    + apply N.eqb_eq in Eij. subst j. simpl. split; [apply step_refl; auto|]. intros _. exists i. auto.
+    + destruct (dir_of f j) as [[pj esj]|].
+      * destruct (negb (is_dir f i)); [simpl; split; [apply step_refl; auto|discriminate]|].
+        destruct (is_nil esj); [|simpl; split; [apply step_refl; auto|discriminate]].
+        cbn [fst snd]. split; auto. intros _. exists i. auto.
+      * destruct (is_dir f i); [simpl; split; [apply step_refl; auto|discriminate]|].
+        cbn [fst snd]. split; auto. intros _. exists i. auto.
+  - cbn [fst snd]. split; auto. intros _. exists i. auto.
+Qed.
+
 End Sys.
